@@ -207,6 +207,17 @@ def gen_cases(tier, seed):
                     if len({(kk if isinstance(kk, bytes) else kk.encode("utf8")) for kk in keys}) < 3:
                         continue
                     cases.append(Case(op, keys, nrarg=rnd.choice(["none", "true", "false"]), dnr=rnd.random() < 0.5, **cf))
+    # 2b. large batches: one illegal key far into the batch still means nothing at all is sent
+    for op in MULTI:
+        for st in ("client", "pooled", "hash"):
+            for n, pos in (((70, 66), (130, 129)) if tier == "quick" else ((130, 100), (130, 129), (65, 64), (300, 256))):
+                for bad in (("bad key",) if tier == "quick" else ("bad key", b"bad\r\nkey", None)):
+                    if tier == "quick" and st == "hash":
+                        continue
+                    keys = ["key%d" % i for i in range(n)]
+                    if bad is not None:
+                        keys[pos] = bad
+                    cases.append(Case(op, keys, nrarg=rnd.choice(["none", "true", "false"]), dnr=rnd.random() < 0.5, stack=st))
     # 3. values with protocol text, all sizes, str/int values, encodings
     for op in STORE1 + ["set_many"]:
         for v in VALUES:
